@@ -118,6 +118,7 @@ func registerGlobalUUID(fd *FileDescriptor, uuid string) {
 			for _, arg := range method.Args {
 				addExtraToDescriptor(uuid, arg)
 				addExtraToTypeDescriptor(uuid, arg.Type)
+				addExtraToDescriptor(uuid, arg.DefaultValue)
 			}
 			for _, e := range method.ThrowExceptions {
 				addExtraToDescriptor(uuid, e)
@@ -151,6 +152,7 @@ func registerGlobalUUID(fd *FileDescriptor, uuid string) {
 	}
 	for _, c := range fd.Consts {
 		addExtraToDescriptor(uuid, c)
+		addExtraToTypeDescriptor(uuid, c.Type)
 		addExtraToDescriptor(uuid, c.Value)
 	}
 }
